@@ -6,7 +6,7 @@
 
    Paths given to the kernel are (absolute?, component list); physical locations are
    lists of names from the model root (= the harness's chroot root). *)
-From Oras Require Import Base.Prelude.
+From Oras Require Import Base.Prelude Generated.GC11.
 Open Scope nat_scope.
 
 Definition name := str.
@@ -286,16 +286,32 @@ Record cfg := mkCfg {
   fixR : bool;   (* link entry that would replace the unpack directory itself refused *)
   fixN : bool;   (* ensureDirNoSymlink: directories are created element by element, existing links refused *)
   fixW : bool;   (* removeSymlink: an existing symbolic link is replaced, not written through *)
-  fixT : bool    (* Chtimes only when the extracted path is not a symbolic link *)
+  fixT : bool;   (* Chtimes only when the extracted path is not a symbolic link *)
+  fixK : bool    (* no memory of directories already checked: every write walks its path again
+                    (false = the seeded change C11-r3m2: a per-store cache in ensureWriteDir) *)
 }.
-Definition cfg_fixed := mkCfg true true true true true true.
-Definition cfg_prefix := mkCfg false false false false false false.
+Definition cfg_fixed := mkCfg true true true true true true true.
+Definition cfg_prefix := mkCfg false false false false false false true.
+
+(* os.Lstat: the kernel walks the path (links among the parents are followed - the working
+   directory may be reached through one), the last element is not followed *)
+Inductive lstat_res := LDir (q : path) | LFile | LSym | LNone | LErr.
+Definition klstat (f : fsys) (p : list name) : lstat_res :=
+  match awalk f p false with
+  | WDir q => LDir q
+  | WFile _ _ => LFile
+  | WSym _ _ _ _ => LSym
+  | WNoEnt _ => LNone
+  | WErrNoEnt => LNone
+  | WErr => LErr
+  end.
 
 Definition touch (g : cfg) (f : fsys) (fp : list name) (t : N) : fsys :=
   if fixT g then
-    match lookup f fp with
-    | Some (NSym _ _ _) => f
-    | _ => chtimes_at f fp t
+    match klstat f fp with
+    | LDir _ => chtimes_at f fp t
+    | LFile => chtimes_at f fp t
+    | _ => f       (* a link, or Lstat failed: no Chtimes *)
     end
   else chtimes_at f fp t.
 
@@ -305,9 +321,9 @@ Fixpoint mkdir_real (f : fsys) (cur : path) (qs : list name) (m : N) : option fs
   match qs with
   | [] => Some f
   | c :: r =>
-    match lookup f (cur ++ [c]) with
-    | Some NDir => mkdir_real f (cur ++ [c]) r m
-    | None =>
+    match klstat f (cur ++ [c]) with
+    | LDir _ => mkdir_real f (cur ++ [c]) r m
+    | LNone =>
       match awalk f (cur ++ [c]) false with
       | WNoEnt p => mkdir_real (new_dir p m f) (cur ++ [c]) r m
       | _ => None
@@ -318,8 +334,8 @@ Fixpoint mkdir_real (f : fsys) (cur : path) (qs : list name) (m : N) : option fs
 
 (* removeSymlink(path): Lstat, os.Remove when it is a link *)
 Definition unlink_if_symlink (f : fsys) (fp : list name) : option fsys :=
-  match lookup f fp with
-  | Some (NSym _ _ _) => remove_at f fp
+  match klstat f fp with
+  | LSym => remove_at f fp
   | _ => Some f
   end.
 
@@ -437,7 +453,7 @@ Definition extract_entry_core (g : cfg) (pres : bool) (cwd : path) (dp : list na
       | Some f0 => chmod_if pres (write_at f0 (Nms fp) c m) fp m
       end
     | EDir _ m =>   (* created writable for the owner; the recorded mode is applied after the last entry *)
-      if fixN g then mkdir_real f dp rel (N.lor m 448) else mkdir_all f (Nms fp) (N.lor m 448)
+      if fixN g then mkdir_real f dp rel (N.lor m c11_unpack_dir_or) else mkdir_all f (Nms fp) (N.lor m c11_unpack_dir_or)
     | EHard _ tgt =>
       if self then None else
       match ensure_link f dp fp tgt with
@@ -484,15 +500,16 @@ Fixpoint restore_dirs (pres : bool) (f : fsys) (dirs : list (path * N)) (seen : 
   | (p, m) :: r =>
     if existsb (path_eqb p) seen then restore_dirs pres f r seen
     else
-      match lookup f p with
-      | Some NDir =>
-        let want := if pres then m else N.land (dir_mode f p) m in
-        if negb pres && (want =? dir_mode f p)%N then restore_dirs pres f r (p :: seen)
+      match klstat f p with
+      | LDir q =>
+        let want := if pres then m else N.land (dir_mode f q) m in
+        if negb pres && (want =? dir_mode f q)%N then restore_dirs pres f r (p :: seen)
         else match chmod_at f p want with
              | Some f' => restore_dirs pres f' r (p :: seen)
              | None => None
              end
-      | None => None
+      | LNone => None
+      | LErr => None
       | _ => restore_dirs pres f r (p :: seen)
       end
   end.
@@ -500,9 +517,11 @@ Fixpoint restore_dirs (pres : bool) (f : fsys) (dirs : list (path * N)) (seen : 
 (* extraction stops at the first error; effects of earlier entries stay (and the directories
    keep their creation mode); after the last entry the directory modes are restored *)
 Fixpoint extract (g : cfg) (pres : bool) (cwd : path) (dp : list name) (dirName : str) (f : fsys) (es : list entry)
-  (ts : list N) (dirs : list (path * N)) : fsys * bool :=
+  (ts : list N) (dirs : list (path * N)) (trunc : bool) : fsys * bool :=
   match es with
   | [] =>
+    if trunc then (f, false)   (* the tar stream breaks off here: error, directory modes not restored *)
+    else
     match restore_dirs pres f dirs [] with
     | Some f' => (f', true)
     | None => (f, false)
@@ -512,7 +531,7 @@ Fixpoint extract (g : cfg) (pres : bool) (cwd : path) (dp : list name) (dirName 
     | None => (f, false)
     | Some f' =>
       extract g pres cwd dp dirName f' r (tl ts)
-              (match dir_record dp dirName e with Some d => d :: dirs | None => dirs end)
+              (match dir_record dp dirName e with Some d => d :: dirs | None => dirs end) trunc
     end
   end.
 
@@ -520,9 +539,15 @@ Fixpoint extract (g : cfg) (pres : bool) (cwd : path) (dp : list name) (dirName 
 
 Inductive pushop :=
 | PBlob (title : str) (c : N)
-| PDir (title : str) (ts : list N) (es : list entry).   (* ts: header times of the entries *)
+| PDir (title : str) (ts : list N) (es : list entry)    (* ts: header times of the entries *)
+| PManifest (layers : list (str * N))
+| PDirF (how : N) (title : str) (ts : list N) (es : list entry).
+  (* an archive that fails: how = 1 the gzip blob fails verification (nothing is unpacked),
+     2 the tar stream breaks off after the entries, 3 the digest of the uncompressed tar does not
+     match (everything is unpacked, then the push fails) *)   (* unnamed image manifest: titles and content tags of its layers *)
 
-Definition push_title (o : pushop) : str := match o with PBlob t _ => t | PDir t _ _ => t end.
+Definition push_title (o : pushop) : str :=
+  match o with PBlob t _ => t | PDir t _ _ => t | PManifest _ => [] | PDirF _ t _ _ => t end.
 
 (* absPath + resolveWritePath: raw components of the (absolute) target, or None = ErrPathTraversalDisallowed *)
 Definition write_path (g : cfg) (wd : path) (title : str) : option (list comp) :=
@@ -530,77 +555,151 @@ Definition write_path (g : cfg) (wd : path) (title : str) : option (list comp) :
   let cl := clean_abs raw in
   if inside wd cl then Some (if fixA g then Nms cl else raw) else None.
 
-Record store := mkStore { st_fs : fsys; st_names : list str }.
+(* st_names: names pushed successfully (plus the unnamed contents of the fallback storage, under
+   names no title can have); st_d2p: digestToPath - content tag -> path of the file it was last
+   saved to (consulted by Fetch when a manifest's named layers are restored) *)
+Record store := mkStore { st_fs : fsys; st_names : list str; st_d2p : list (N * path) }.
 
-Definition push (g : cfg) (pres : bool) (wd cwd : path) (s : store) (o : pushop) : store * bool :=
-  let title := push_title o in
-  match title with
-  | [] =>   (* no name: fallback content-addressed storage, no file-system effect; the same
-               blob twice is "already exists" (recorded under a name no title can have) *)
-    match o with
-    | PBlob _ c =>
-      let mk := [0%N; c] in
-      if existsb (str_eqb mk) (st_names s) then (s, false)
-      else (mkStore (st_fs s) (mk :: st_names s), true)
-    | PDir _ _ _ => (s, true)
+(* the name under which a (hypothetical, fixK = false) cache of checked directories remembers one *)
+Definition cache_mark (dir : list name) : str := 0%N :: 3%N :: 47%N :: join_names dir.
+Definition cached (g : cfg) (s_names : list str) (dir : list name) : bool :=
+  negb (fixK g) && existsb (str_eqb (cache_mark dir)) s_names.
+Definition remember (g : cfg) (s_names : list str) (dir : list name) : list str :=
+  if fixK g then s_names else cache_mark dir :: s_names.
+
+Definition ensure_write_dir (g : cfg) (wd : path) (f : fsys) (dir : list name) (rawdir : list comp) : option fsys :=
+  match (if fixN g then strip_prefix wd dir else None) with
+  | Some rel =>   (* ensureDirNoSymlink: os.MkdirAll(base), then element by element *)
+    match mkdir_all f (Nms wd) c11_write_dir_perm with
+    | Some f0 => mkdir_real f0 wd rel c11_write_dir_perm
+    | None => None
     end
-  | _ =>
+  | None => mkdir_all f rawdir c11_ensure_dir_perm
+  end.
+
+(* Store.push of a named blob: [w] is the content written, [good] whether it verifies against
+   the descriptor (if not, the partially written file is removed again) *)
+Definition push_blob (g : cfg) (wd : path) (s : store) (title : str) (w : N) (good : bool) : store * bool :=
   if existsb (str_eqb title) (st_names s) then (s, false) else
   match write_path g wd title with
   | None => (s, false)
   | Some raw =>
     let f := st_fs s in
-    match o with
-    | PBlob _ c =>
-      let dir := clean_abs (removelast raw) in
-      let made := match (if fixN g then strip_prefix wd dir else None) with
-                  | Some rel =>   (* ensureDirNoSymlink: os.MkdirAll(base), then element by element *)
-                    match mkdir_all f (Nms wd) 511 with
-                    | Some f0 => mkdir_real f0 wd rel 511
-                    | None => None
-                    end
-                  | None => mkdir_all f (Nms dir) 511
-                  end in
-      match made with
-      | None => (s, false)
-      | Some f1 =>
-        match (if fixW g && negb (path_eqb (clean_abs raw) wd)
-               then unlink_if_symlink f1 (clean_abs raw) else Some f1) with
-        | None => (mkStore f1 (st_names s), false)
-        | Some f1' =>
-          match write_at f1' raw c 438 with
-          | None => (mkStore f1' (st_names s), false)
-          | Some f2 =>
-            match c with
-            | 0%N =>   (* content tag 0 = content that fails verification: the file is removed again *)
-              match remove_at f2 (clean_abs raw) with
-              | Some f3 => (mkStore f3 (st_names s), false)
-              | None => (mkStore f2 (st_names s), false)
-              end
-            | _ => (mkStore f2 (title :: st_names s), true)
-            end
-          end
+    let dir := clean_abs (removelast raw) in
+    match (if cached g (st_names s) dir then Some f else ensure_write_dir g wd f dir (Nms dir)) with
+    | None => (s, false)
+    | Some f1 =>
+      let names := remember g (st_names s) dir in
+      match (if fixW g && negb (path_eqb (clean_abs raw) wd)
+             then unlink_if_symlink f1 (clean_abs raw) else Some f1) with
+      | None => (mkStore f1 names (st_d2p s), false)
+      | Some f1' =>
+        match write_at f1' raw w 438 with
+        | None => (mkStore f1' names (st_d2p s), false)
+        | Some f2 =>
+          if good then (mkStore f2 (title :: names) ((w, clean_abs raw) :: st_d2p s), true)
+          else match remove_at f2 (clean_abs raw) with
+               | Some f3 => (mkStore f3 names (st_d2p s), false)
+               | None => (mkStore f2 names (st_d2p s), false)
+               end
         end
       end
-    | PDir _ ts es =>
-      let dp := clean_abs raw in
-      let made := match (if fixN g then strip_prefix wd dp else None) with
-                  | Some rel =>   (* ensureDirNoSymlink: os.MkdirAll(base), then element by element *)
-                    match mkdir_all f (Nms wd) 511 with
-                    | Some f0 => mkdir_real f0 wd rel 511
-                    | None => None
-                    end
-                  | None => mkdir_all f raw 511
-                  end in
-      match made with
-      | None => (s, false)
-      | Some f1 =>
-        let '(f2, ok) := extract g pres cwd dp title f1 es ts [] in
-        (mkStore f2 (if ok then title :: st_names s else st_names s), ok)
+    end
+  end.
+
+Definition push_dir (g : cfg) (pres : bool) (wd cwd : path) (s : store) (title : str) (ts : list N) (es : list entry)
+  (how : N) : store * bool :=
+  if existsb (str_eqb title) (st_names s) then (s, false) else
+  match write_path g wd title with
+  | None => (s, false)
+  | Some raw =>
+    let dp := clean_abs raw in
+    match (if cached g (st_names s) dp then Some (st_fs s) else ensure_write_dir g wd (st_fs s) dp raw) with
+    | None => (s, false)
+    | Some f1 =>
+      let names := remember g (st_names s) dp in
+      if (how =? 1)%N then (mkStore f1 names (st_d2p s), false) else
+      let '(f2, ok0) := extract g pres cwd dp title f1 es ts [] (how =? 2)%N in
+      let ok := ok0 && negb (how =? 3)%N in
+      (mkStore f2 (if ok then title :: names else names) (st_d2p s), ok)
+    end
+  end.
+
+(* ---- manifests: Store.Push restores the named layers whose content the store holds ---- *)
+
+Fixpoint lookup_d2p (l : list (N * path)) (c : N) : option path :=
+  match l with
+  | [] => None
+  | (k, p) :: r => if (k =? c)%N then Some p else lookup_d2p r c
+  end.
+
+Inductive fetched := FNone | FErr | FSome (c : N).
+
+(* Store.Fetch by digest: the file the content was last saved to, as it is NOW (os.Open follows
+   links; reading is not a mutation), else the fallback storage *)
+Definition fetch (s : store) (c : N) : fetched :=
+  match lookup_d2p (st_d2p s) c with
+  | Some p =>
+    match awalk (st_fs s) p true with
+    | WFile _ i => FSome (content (st_fs s) i / 1024)
+    | WNoEnt _ => FNone
+    | WErrNoEnt => FNone
+    | _ => FErr
+    end
+  | None => if existsb (str_eqb [0%N; c]) (st_names s) then FSome c else FNone
+  end.
+
+(* the name under which an unnamed manifest sits in the fallback storage *)
+Fixpoint manifest_marker (layers : list (str * N)) : str :=
+  match layers with
+  | [] => [0%N; 1%N]
+  | (t, c) :: r => 0%N :: 2%N :: c :: t ++ manifest_marker r
+  end.
+
+(* restoreDuplicatesFrom: "not found" is ignored, any other failure ends the push with an error *)
+Fixpoint restore_layers (g : cfg) (wd : path) (s : store) (layers : list (str * N)) : store * bool :=
+  match layers with
+  | [] => (s, true)
+  | (t, c) :: r =>
+    match t with
+    | [] => restore_layers g wd s r
+    | _ =>
+      if existsb (str_eqb t) (st_names s) then restore_layers g wd s r else
+      match fetch s c with
+      | FNone => restore_layers g wd s r
+      | FErr => (s, false)
+      | FSome c' =>
+        let '(s1, ok) := push_blob g wd s t c' ((c' =? c)%N && negb (c =? 0)%N) in
+        if ok then restore_layers g wd s1 r else (s1, false)
       end
     end
-  end
   end.
+
+Definition push (g : cfg) (pres : bool) (wd cwd : path) (s : store) (o : pushop) : store * bool :=
+  match o with
+  | PManifest layers =>
+    let mk := manifest_marker layers in
+    if existsb (str_eqb mk) (st_names s) then (s, false)
+    else restore_layers g wd (mkStore (st_fs s) (mk :: st_names s) (st_d2p s)) layers
+  | PBlob [] c =>
+    (* no name: fallback content-addressed storage, no file-system effect; the same blob twice is
+       "already exists"; content that fails verification is refused *)
+    let mk := [0%N; c] in
+    if (c =? 0)%N || existsb (str_eqb mk) (st_names s) then (s, false)
+    else (mkStore (st_fs s) (mk :: st_names s) (st_d2p s), true)
+  | PBlob title c => push_blob g wd s title c (negb (c =? 0)%N)
+  | PDir [] _ _ => (s, true)
+  | PDir title ts es => push_dir g pres wd cwd s title ts es 0
+  | PDirF _ [] _ _ => (s, false)
+  | PDirF how title ts es => push_dir g pres wd cwd s title ts es how
+  end.
+
+(* Store.Exists(descriptor with title t and the digest of content c): the name is known (or
+   there is none) and the content is in digestToPath or in the fallback storage - the store's
+   book-keeping as an observable *)
+Definition exists_obs (s : store) (t : str) (c : N) : bool :=
+  (match t with [] => true | _ => existsb (str_eqb t) (st_names s) end) &&
+  (match lookup_d2p (st_d2p s) c with Some _ => true | None => existsb (str_eqb [0%N; c]) (st_names s) end).
 
 Fixpoint pushes (g : cfg) (pres : bool) (wd cwd : path) (s : store) (os : list pushop) : store * list bool :=
   match os with
